@@ -38,6 +38,7 @@ type Case struct {
 	Edges    [][2]int `json:"edges"` // [i,j]: j depends on i (i<j in a hidden order; names are s<i>)
 	Prod     int      `json:"prod"`
 	Chain    []string `json:"chain"` // tokens for the .Output chain task
+	Format   string   `json:"format,omitempty"` // output format of the run: raw (default) | prefixed | cockpit
 	CLI      bool     `json:"cli,omitempty"`
 }
 
@@ -173,6 +174,9 @@ func runAPI(c Case, dir string) error {
 	}
 	r, _ := runner.NewTaskRunner()
 	r.Stdout, r.Stderr = io.Discard, io.Discard
+	if c.Format != "" {
+		r.OutputFormat = c.Format
+	}
 	s := scheduler.NewScheduler(r)
 	hook.SetPause(s, 2_000_000)
 	if err := s.Schedule(g); err != nil {
@@ -239,7 +243,11 @@ func runCLI(c Case, dir string) error {
 	cfg := gen.Map{{K: "tasks", V: tasks}, {K: "pipelines", V: gen.Map{{K: "pp", V: stages}}}}
 	os.WriteFile(filepath.Join(dir, "t.yaml"), []byte(gen.YAML(cfg)), 0o644)
 	env := cli.Env{Bin: drv.Bin(), Dir: dir, Home: filepath.Join(dir, "home")}
-	args := []string{"-c", "t.yaml", "--raw", "pp"}
+	format := c.Format
+	if format == "" {
+		format = "raw"
+	}
+	args := []string{"-c", "t.yaml", "--output", format, "pp"}
 	if len(c.Chain) > 0 {
 		args = append(args, "chain-task")
 	}
@@ -263,6 +271,10 @@ func genPayload(rt *rapid.T, budget int) string {
 	switch rapid.IntRange(0, 7).Draw(rt, "payload-kind") {
 	case 0:
 		return ""
+	case 6:
+		// coloured output, the usual content of build and test tools
+		return rapid.SampledFrom([]string{"\x1b[32mok\x1b[0m\n", "\x1b[1;31mFAIL\x1b[0m x\nsecond \x1b[2Kline\n", "plain \x1b[38;5;196mred\x1b[0m tail", "\x1b[0m"}).Draw(rt, "coloured") +
+			rapid.StringMatching(`[a-z ]{0,12}\n?`).Draw(rt, "after-colour")
 	case 7:
 		// text that looks like the template syntax taskctl uses for commands and variables
 		return rapid.SampledFrom([]string{"{{", "x{{y\n", "{{ .Root }}\n", "}}", "{{ nope }}", "{{/*", "a {{ .Output }} b\n", "${HOME} $(id) `id`\n", "%s %d %%\n"}).Draw(rt, "template-like")
@@ -315,6 +327,13 @@ func genCase(rt *rapid.T, cliMode bool) Case {
 		c.Payloads = append(c.Payloads, p)
 	}
 	c.Allow = rapid.IntRange(0, 3).Draw(rt, "allow") == 0
+	// the captured output must not depend on how the output is shown (the cockpit keeps process-global
+	// state, so in-process runs use raw and prefixed only)
+	if cliMode {
+		c.Format = rapid.SampledFrom([]string{"raw", "prefixed", "cockpit"}).Draw(rt, "format")
+	} else {
+		c.Format = rapid.SampledFrom([]string{"raw", "prefixed"}).Draw(rt, "format")
+	}
 	c.N = rapid.IntRange(2, 6).Draw(rt, "stages")
 	for j := 1; j < c.N; j++ {
 		for i := 0; i < j; i++ {
@@ -340,7 +359,10 @@ func record(c Case) {
 	if c.NVar > 0 {
 		jobs *= c.NVar
 	}
-	cls := []string{fmt.Sprintf("jobs=%d", jobs), fmt.Sprintf("dependants=%d", len(c.dependants()))}
+	cls := []string{fmt.Sprintf("jobs=%d", jobs), fmt.Sprintf("dependants=%d", len(c.dependants())), "format=" + c.Format}
+	if strings.Contains(want, "\x1b[") {
+		cls = append(cls, "output-with-escape-sequence")
+	}
 	nonIdent := envName(c.Name) != strings.ToUpper(c.Name)+"_OUTPUT"
 	if nonIdent {
 		cls = append(cls, "name-with-non-identifier-byte")
